@@ -96,7 +96,7 @@ pub fn shard_main(prop: &str, registry: &[Entry]) {
     let mut groups = 0u64;
     let mut samples = Vec::new();
     let mut distinct = std::collections::BTreeSet::new();
-    let max_events_2 = if tier == Tier::Quick { 6usize } else { 8usize };
+    let max_events_2 = if tier == Tier::Quick { 6usize } else { 7usize };
     let mut transitions = 0u64;
     let max_events_3 = 4usize;
     for (cid, entry) in &reg {
@@ -122,7 +122,7 @@ pub fn shard_main(prop: &str, registry: &[Entry]) {
             ev.push((inp.clone(), base.1, (exp.0, exp.1, base.0)));
         }
         // pairs chosen to collide: same first character (same rules at the same offsets), different continuation
-        let pair_budget = if tier == Tier::Quick { 6 } else { 20 };
+        let pair_budget = if tier == Tier::Quick { 6 } else { 10 };
         let mut pairs: Vec<Vec<usize>> = Vec::new();
         'outer: for a in 0..ev.len() {
             for b in (a + 1)..ev.len() {
